@@ -17,7 +17,10 @@ RULE = ('histories of ZooKeeper-level events produced with the repository\'s own
         'after load_model / init_schedule / attach_watchers) and, once nothing is queued, undelivered or being delivered '
         'and the master is up to date - or the callback thread has not come back for 4 idle passes - evaluates the same '
         'oracle plus "no entry for an instance that is no longer in /scheduled"; a LINE event local to the watch callback '
-        'parks the callback thread between two of its statements until the main loop completed a full pass.')
+        'parks the callback thread between two of its statements until the main loop completed a full pass. Operator commands '
+        '(among them deleting a hosting server, optionally interrupted at one of its requests and repeated) also land while the '
+        'master is busy with a batch of events; a second master takes over after the first; a master that dies is judged by '
+        'what it leaves only if it had nothing left to read (no queued, undelivered or /events entry).')
 ASSUMPTIONS = ['in-memory ZooKeeper fake (vf/zkfake.py) under the real ZkBackend/zkutils/masterapi',
                'children watches are replaced by the driver calling the registered handler for every watched path '
                'whose children changed (also by the master\'s own writes) before each cycle',
@@ -26,7 +29,8 @@ ASSUMPTIONS = ['in-memory ZooKeeper fake (vf/zkfake.py) under the real ZkBackend
 BUDGET = {'quick': (130, 45.0), 'thorough': (700, 300.0)}
 REQUIRED_REACH = {'*': ['master_restarts', 'moved_between_servers', 'evictions', 'down_expired', 'real_loop_cases',
                         'real_loop_callback_parked_between_two_statements', 'real_loop_operator_command_at_start_up_joint',
-                        'real_loop_placed_instances_deleted']}
+                        'real_loop_placed_instances_deleted', 'real_loop_second_master_started',
+                        'real_loop_operator_command_during_event_handling']}
 
 
 def _real_loop(ctx, idx, rng):
